@@ -27,6 +27,7 @@
 
 from __future__ import division
 from array import array
+from copy import copy
 
 from whoosh.compat import xrange
 from whoosh.matching import mcore
@@ -188,6 +189,14 @@ class ArrayUnionMatcher(CombinationMatcher):
         return ("%s(%r, boost=%f, scored=%r, partsize=%d)"
                 % (self.__class__.__name__, self._submatchers, self._boost,
                    self._scored, self._partsize))
+
+    def copy(self):
+        # The buffered part belongs to the position: duplicate it together
+        # with the sub-matchers (which stand at the start of the next part)
+        m = copy(self)
+        m._submatchers = [subm.copy() for subm in self._submatchers]
+        m._a = array("d", self._a)
+        return m
 
     def reset(self):
         # Rewind the sub-matchers and buffer the first part again, as
